@@ -465,6 +465,9 @@ func Start(xmlText string, vars map[string]any, opts ...bpmn.Option) (*Inst, *sc
 	return in, defs, err
 }
 
+// EngineDefaultContext counts the instances created by an engine that was given no context.
+var EngineDefaultContext int
+
 // DocumentsCompared counts the documents whose parse was compared with what the generator wrote.
 var DocumentsCompared int
 
@@ -545,7 +548,13 @@ func NewInst(defs *schema.Definitions, vars map[string]any, opts ...bpmn.Option)
 		all = append(all, bpmn.WithVariables(vars))
 	}
 	all = append(all, opts...)
+	// the ENGINE's context is the instance's own for half of the documents and the engine's default (never cancelled)
+	// for the others: an instance lives and ends on the context it was given, whatever the engine was created with
 	eng := bpmn.NewEngine(bpmn.WithEngineContext(ctx))
+	if ps := *defs.Processes(); len(ps) > 0 && len(ps[0].FlowElements())%2 == 1 {
+		eng = bpmn.NewEngine()
+		EngineDefaultContext++
+	}
 	proc, err := eng.NewProcess(defs, all...)
 	if err != nil {
 		cancel()
